@@ -1,4 +1,4 @@
-mod bins;
+pub(crate) mod bins;
 mod metadata;
 
 use std::io::{self, Write};
